@@ -264,3 +264,76 @@ def simple_requests(binary, requests, nworkers=12, timeout=30.0, env=None):
     for t in threads:
         t.join()
     return out
+
+
+def stream_requests(binary, requests, nworkers=12, timeout=30.0, env=None):
+    """Tape histories in stream mode: the worker prints {"pending": call} before and {"event": ..}
+    after every call, so that a history that ends with the process still has its completed calls
+    and the call that was pending.  Returns per request
+    {"events", "end", "refused", "pending"} ("end" is "ok", "panic", "abort", a signal name or "hung")."""
+    q = queue.Queue()
+    for i, r in enumerate(requests):
+        r = dict(r)
+        r["stream"] = 1
+        q.put((i, r))
+    out = [None] * len(requests)
+
+    def loop():
+        w = Worker(binary, env)
+        try:
+            while True:
+                try:
+                    i, req = q.get_nowait()
+                except queue.Empty:
+                    break
+                if not w.send(req):
+                    w.kill()
+                    w.start()
+                    w.send(req)
+                events, pending, notes = [], None, 0
+                while True:
+                    msg = w.readline(timeout)
+                    if isinstance(msg, tuple):
+                        if msg[0] == "timeout":
+                            w.kill()
+                            end = "hung"
+                        else:
+                            end = signame(msg[1])
+                            if end == "SIGABRT":
+                                end = "abort"
+                        out[i] = {"events": events, "end": end, "refused": notes, "pending": pending}
+                        w.start()
+                        break
+                    if "bye" in msg:
+                        w.close()
+                        w.start()
+                        w.send(req)
+                        events, pending, notes = [], None, 0
+                        continue
+                    if "refusednote" in msg:
+                        notes += 1
+                        continue
+                    if "pending" in msg:
+                        pending = msg["pending"]
+                        continue
+                    if "event" in msg:
+                        events.append(msg["event"])
+                        pending = None
+                        continue
+                    if "end" in msg:
+                        out[i] = {"events": msg.get("events", events), "end": msg["end"],
+                                  "refused": msg.get("refused", notes), "pending": pending}
+                        break
+                    if "error" in msg:
+                        out[i] = {"events": events, "end": "error:" + str(msg["error"]), "refused": notes,
+                                  "pending": pending}
+                        break
+        finally:
+            w.close()
+
+    threads = [threading.Thread(target=loop, daemon=True) for _ in range(min(nworkers, max(1, len(requests))))]
+    for t in threads:
+        t.start()
+    for t in threads:
+        t.join()
+    return out
